@@ -561,6 +561,24 @@ def run(tier: str, seed: int) -> list[Part]:
         part.counters["tlc_wall_s"] = res.wall_s
         part.wall_s = time.time() - t0
         parts.append(part)
+    if tier == "thorough":
+        import random
+
+        t0 = time.time()
+        res = run_tlc("MC_Sql.tla", "SqlSim6.cfg", simulate="num=20", seed=seed, extra_args=["-depth", "8"], heap="4g", timeout=7200)
+        if res.violated:
+            raise MachineryError(f"model-level violation of {res.violated} in SqlSim6.cfg (simulation):\n{res.error_text}")
+        part = Part(name="sqlprogram:SqlSim6.cfg:simulate", cfg="SqlSim6.cfg", states=max(res.distinct, 1), transitions=max(res.generated, 1), exhaustive=False)
+        lines = sorted(set(res.raw_lines()))
+        random.Random(seed).shuffle(lines)
+        lines = lines[:20000]
+        outs = parallel_replay(worker, lines, ctx={"event_every": 6, "rejects_every": 20, "raw_every": 4}, chunk=200)
+        merge_worker_outputs(part, outs)
+        events = [ev for o in outs for ev in o.get("events", [])]
+        judge_trees(events, part, "sql", CLAUSE_PROPS)
+        part.notes.append(f"TLC -simulate num=20 -depth 8 seed {seed}: {len(lines)} distinct depth-6 histories replayed")
+        part.wall_s = time.time() - t0
+        parts.append(part)
     # companion: open finding F15 still occurs in the model
     t0 = time.time()
     kf = run_tlc("MC_Sql.tla", "SqlKF15.cfg", expect_violation=True, heap="3g")
